@@ -5,6 +5,7 @@ import random
 from . import core, worldgen as wg
 from .common import q3, q3xyz, q2, world, ok, vals, rel_close
 from .check_C09 import mapped_point
+from . import check_C04
 
 PID = 'C03'
 
@@ -88,7 +89,7 @@ def main(tier, seed, replay):
     rng = random.Random(seed * 104729 + 3)
     V = core.Verdict(PID, tier, seed)
     V.coverage['rule'] = ('generated worlds (both coordinate systems, random global constants and gravity incl. zero/negative, empty feature lists); points constructed far outside every '
-                          'feature (3D entry point; on worlds with a cross section also the 2D entry points properties/temperature along the section line) plus every sampled point whose observed tag is -1; depths incl. 0, negative, 1e6 m; forced surface temperature checked at depth 0 for single and batched '
+                          'feature (3D entry point; on worlds with a cross section also the 2D entry points properties/temperature along the section line) plus every sampled point whose observed tag is -1; depths incl. 0, negative, 1e6 m; single-feature worlds with the exact footprint oracles of C04 (points the oracle puts outside, mostly right next to the boundary, must show the background in every property); forced surface temperature checked at depth 0 for single and batched '
                           'requests, inside features as well; non-trivial = distinct (world with non-default constants, depth class) pairs')
     nworlds = 200 if tier == 'quick' else 4000
     cases = []
@@ -141,7 +142,66 @@ def main(tier, seed, replay):
                     plan.append(('surface', (sx, sy, 0.0), props, q3(c, 1, ctx, sx, sy, 0.0, props)))
         cases.append(c)
         plans.append((w, c, plan, fn))
+    # the exact-footprint family: single-feature worlds with the exact membership oracles of C04 (closed polygon x closed, possibly
+    # affine, depth bounds; plume ellipses with head): wherever the oracle says "outside", every property must be the background value
+    # - observed through temperature, composition, grains, velocity and tag, right next to the feature's boundary
+    nexact = 320 if tier == 'quick' else 9600
+    xprops = [(1, 0, 0), (2, 0, 0), (3, 0, 2), (5, 0, 0), (4, 0, 0)]
+    xjobs = []
+    for i in range(nexact):
+        wrng = random.Random(rng.getrandbits(48))
+        sph = wrng.random() < 0.45
+        if i % 4 == 3:
+            doc, t = check_C04.plume_world(wrng, sph, dateline=sph and wrng.random() < 0.3)
+            pts = check_C04.plume_points(wrng, t, 60)
+        else:
+            doc, t = check_C04.area_world(wrng, sph, wrng.choice(['random', 'random', 'lattice', 'dateline' if sph else 'random']))
+            pts = check_C04.area_points(wrng, t, 60)
+        f = doc['features'][0]
+        f['temperature models'] = [{'model': 'uniform', 'temperature': 111.0}]
+        if f['model'] != 'plume':
+            f['velocity models'] = [{'model': 'uniform raw', 'velocity': [0.25, -0.5, 0.125]}]
+        f['grains models'] = [{'model': 'uniform', 'compositions': [0], 'rotation matrices': [[[0, 1, 0], [1, 0, 0], [0, 0, -1]]], 'grain sizes': [0.5]}]
+        fn = 'x%d.wb' % i
+        c = core.Case('x%d' % i, files={fn: wg.dumps(doc)})
+        world(c, 1, core.workfile(PID, fn))
+        plan = [(p, q3(c, 1, t['ctx'], p[0], p[1], p[2], xprops)) for p in pts if p[3] is False]
+        g = {'Tp': doc.get('potential mantle temperature', 1600.0), 'alpha': doc.get('thermal expansion coefficient', 3.5e-5), 'cp': doc.get('specific heat', 1250.0),
+             'g': doc.get('gravity model', {}).get('magnitude', 9.81)}
+        xjobs.append((c, t, plan, fn, g))
+        cases.append(c)
     core.run_cases('asan', cases, PID)
+    for (c, t, plan, fn, g) in xjobs:
+        if c.crash:
+            V.crash(c, fn)
+        if not ok(c.results[0]):
+            V.notes.append('exact-footprint world rejected: %s' % c.results[0][1][:100]) if len(V.notes) < 5 else None
+            continue
+        for (p, idx) in plan:
+            res = c.results[idx]
+            if res[0] == 'missing' or not ok(res):
+                continue
+            V.count()
+            v = vals(res)
+            blocks = core.split_blocks(v, xprops)
+            d = p[2]
+            expT = g['Tp'] * math.exp(((g['alpha'] * g['g']) / g['cp']) * d)
+            bad = []
+            if not rel_close(blocks[0][0], expT, 1e-12):
+                bad.append('temperature')
+            if blocks[1][0] != 0.0:
+                bad.append('composition')
+            if any(x != 0.0 for x in blocks[2]):
+                bad.append('grains')
+            if any(x != 0.0 for x in blocks[3]):
+                bad.append('velocity')
+            if blocks[4][0] != -1.0:
+                bad.append('tag')
+            if bad:
+                V.violation('outside-the-exact-footprint-but-not-the-background-state:%s:%s' % (t.get('ftype', 'plume'), '+'.join(bad)),
+                            {'world': fn, 'point': p[:3], 'values': v, 'expected_T': expT, 'truth': {k: t[k] for k in t if k != 'ctx'}})
+            elif p[4]:
+                V.nontrivial(('exact-outside', fn, p[0], p[1], p[2]))
     for (w, c, plan, fn) in plans:
         g = w['truth']['globals']
         if c.crash:
